@@ -9,7 +9,7 @@ from fractions import Fraction
 
 VERIF = os.path.dirname(os.path.dirname(os.path.abspath(__file__)))
 REPO = os.environ.get("BARRIL_REPO", "/repo")
-LEAN_DIR = os.path.join(VERIF, "lean")
+LEAN_DIR = os.environ.get("BARRIL_LEAN_DIR") or os.path.join(VERIF, "lean")
 GEN_DIR = os.path.join(LEAN_DIR, "Barril", "Gen")
 EVIDENCE_DIR = os.path.join(VERIF, "evidence")
 REPLAY_DIR = os.path.join(VERIF, "replays")
